@@ -100,6 +100,34 @@ def variables(e, acc=None):
     return acc
 
 
+def relation_literals(e, acc=None):
+    """numeric literals that stand directly as an operand of a relation (thresholds), as floats"""
+    if acc is None:
+        acc = []
+    if not isinstance(e, tuple):
+        return acc
+    k = e[0]
+    if k == "rel":
+        for a in e[2:4]:
+            if isinstance(a, tuple) and a[0] == "num":
+                try:
+                    acc.append(float(a[1]))
+                except ValueError:
+                    pass
+            elif isinstance(a, tuple) and a[0] == "neg" and isinstance(a[1], tuple) and a[1][0] == "num":
+                try:
+                    acc.append(-float(a[1][1]))
+                except ValueError:
+                    pass
+    for a in e[1:]:
+        if isinstance(a, tuple):
+            relation_literals(a, acc)
+        elif isinstance(a, list):
+            for x in a:
+                relation_literals(x, acc)
+    return acc
+
+
 def depth(e):
     k = e[0]
     if k in ("num", "var", "pi"):
@@ -833,12 +861,25 @@ class Gen:
         """sample points: dyadic rationals of moderate size; the first is the default values"""
         rng = self.rng
         s = model_summary(model)
+        # thresholds the text compares with: values on, next to and beyond them make both sides of every such comparison reachable
+        # (the dyadic grid alone never exceeds 2 in absolute value)
+        try:
+            defs, _, _ = model_defs(model)
+            lits = sorted({c for e in defs.values() for c in relation_literals(e) if abs(c) <= 1e3})
+        except Exception:  # noqa: BLE001
+            lits = []
+        special = sorted({v for c in lits for v in (c, c + 0.125, c - 0.125, -c, c * 2 + 1)})
+
+        def value():
+            if special and rng.random() < 0.2:
+                return rng.choice(special)
+            return rng.randrange(-16, 17) / 8.0
         pts = []
         for _ in range(n):
             pts.append({
-                "t": rng.choice([0.0, 0.5, 1.0, 2.25, 3.0, -0.75, -2.0]),
+                "t": rng.choice([0.0, 0.5, 1.0, 2.25, 3.0, -0.75, -2.0]) if not (special and rng.random() < 0.15) else rng.choice(special),
                 "dt": rng.choice([0.0, 2.0 ** -40, 0.0625, 1.0, -0.5, 2.0 ** 20, 0.01]),
-                "states": {x: rng.randrange(-16, 17) / 8.0 for x in s["states"]},
-                "params": {x: rng.randrange(-16, 17) / 8.0 for x in s["parameters"]},
+                "states": {x: value() for x in s["states"]},
+                "params": {x: value() for x in s["parameters"]},
             })
         return pts
